@@ -18,7 +18,7 @@ import (
 
 func init() {
 	register(&Prop{ID: "C01", Gen: c01Gen, Oracle: c01Oracle,
-		Rule: "fault enumeration over (log size, tile height, record id, cache state, fault): bit flips at every position class of the lookup response (id / text / blank line / tree text / signature) and of every tile fetched, truncation, extension, extra signature, swap of responses, stale head, forged record with recomputed tiles (leaf only … all levels) under honest / attacker / spliced signatures, cache-file corruption, partial tiles dropped by the server with the complete tile served as true prefix + made-up tail; followed by a restart against the honest server (same tree, and a tree that has grown past the tiles of the faulty run); honest deep trees at tile height 1 (several hundred to thousands of records, more than 16 tiles per ReadHashes plan); logs with name-related records (one module path a proper suffix / prefix of another, same version) with the authentic responses swapped between them; co-signed heads (k unknown-key signature lines after / before the server's, distinct or repeated, k swept up to, at and beyond the 100-line limit of the note format — honest up to the limit); non-trivial = the fault changes at least one response actually read; distinct by scenario line"})
+		Rule: "fault enumeration over (log size, tile height, record id, cache state, fault): bit flips at every position class of the lookup response (id / text / blank line / tree text / signature) and of every tile fetched, truncation, extension, extra signature, swap of responses, stale head, forged record with recomputed tiles (leaf only … all levels) under honest / attacker / spliced signatures, cache-file corruption, partial tiles dropped by the server with the complete tile served as true prefix + made-up tail; followed by a restart against the honest server (same tree, and a tree that has grown past the tiles of the faulty run); honest deep trees at tile height 1 (several hundred to thousands of records, more than 16 tiles per ReadHashes plan); logs with name-related records (one module path a proper suffix / prefix of another, same version) with the authentic responses swapped between them; co-signed heads (k unknown-key signature lines after / before the server's, distinct or repeated, k swept up to, at and beyond the 100-line limit of the note format — honest up to the limit); legal non-ASCII key names (honest servers and co-signing witnesses whose names contain a character with the UTF-8 continuation byte b, for every b in 0x80..0xBF and every position of the byte in 2-, 3- and 4-byte encodings; keys, verifier keys and signature lines laid out by hand); short complete tile where a partial one is wanted (partial tile gone, the complete tile — made up, true, or from the cache — cut to k bytes, k below / at / above W*32) with the same client instance then asked for two other records; non-trivial = the fault changes at least one response actually read; distinct by scenario line"})
 }
 
 func c01Gen(g *Gen, n int) {
@@ -152,6 +152,23 @@ func c01Gen(g *Gen, n int) {
 		c01EmitSample(g, atLimit, mult, "")
 		c01EmitSample(g, near, mult, "")
 		c01EmitSample(g, few, 3*mult, "")
+		// legal non-ASCII key names: witnesses (scenario runs) and servers (self-contained honest runs, util_c01names.go)
+		cases = nil
+		{
+			N := 1 + g.Intn(12)
+			c01EnumerateCosignedNames(g.Rand, wseed, N, 1+g.Intn(2), g.Intn(N), func(c c01Case) { cases = append(cases, c) })
+		}
+		c01EmitSample(g, cases, 2*mult, "")
+		c01NamesGen(g, wseed, n/250+3)
+		// short complete tile where a partial one is wanted, with the same instance continuing
+		cases = nil
+		for k := 0; k < 4; k++ {
+			c01EnumerateShortFull(g.Rand, wseed, 3+g.Intn(10), 1+g.Intn(2), func(c c01Case) { cases = append(cases, c) })
+		}
+		for k := 0; k < n/200+4 && len(cases) > 0 && clConfirmedHangs < 2; k++ {
+			// (a scenario that hangs is not emitted, and costs the full timeout: the oracle reports it; stop after two)
+			c01EmitCase(g, cases[g.Intn(len(cases))])
+		}
 	}
 	// forks (SecurityError path of checkTrees): sequential C13 scenarios over two logs sharing a prefix
 	for k := 0; k < n/6+1; {
@@ -318,6 +335,7 @@ type c01Case struct {
 	tag    string
 	pre    int  // history: number of honest lookups of OTHER records on the same client instance before the faults are switched on
 	always bool // never dropped by the budget sampling of the oracle
+	cont   int  // continuation: number of further lookups (other records, same client instance, faults still on) between the /go.mod repeat and the restart
 }
 
 // c01Positions: representative byte offsets of every position class of a lookup response.
@@ -856,6 +874,141 @@ func c01EnumerateCosigned(r *Rand, wseed uint64, N, h, id int, emit func(c01Case
 	}
 }
 
+// c01EnumerateCosignedNames: heads co-signed by witnesses with legal NON-ASCII key names (util_c01names.go; the
+// `sigs/<k>.u<hh>[p]` mutation): for every UTF-8 continuation byte 0x80..0xBF six witnesses whose names contain a
+// character with that byte (one per position a continuation byte can take), after or before the server's line, the cache
+// state rotating with the byte.  Honest runs: a signature by an unknown key with a legal name is ignored, nothing else.
+func c01EnumerateCosignedNames(r *Rand, wseed uint64, N, h, id int, emit func(c01Case)) {
+	w := clGetWorld(wseed, N, 0, 0)
+	rec := w.A.recs[id]
+	if _, ok := clLookupFile(rec.path, rec.vers); !ok {
+		return
+	}
+	head := fmt.Sprintf("client.run w=%d:%d:0:0 h=%d", wseed, N, h)
+	key := "A" + itoa(id)
+	tail := fmt.Sprintf("look=0:%s look=0:%sm f-= new=0 look=0:%s", key, key, key)
+	type setup struct {
+		name  string
+		steps []string
+		hist  []string
+	}
+	setups := []setup{{"cold", nil, nil}, {"cfg-same", []string{fmt.Sprintf("cfg=A@%d", N)}, nil}}
+	if id >= 1 {
+		setups = append(setups, setup{"warm", []string{fmt.Sprintf("warm=0:A@%d:*", id)}, nil})
+	}
+	if N > 1 {
+		setups = append(setups, setup{"hist", nil, []string{"look=0:A" + itoa((id+1)%N)}})
+	}
+	for b := 0x80; b <= 0xBF; b++ {
+		su := setups[(b+r.Intn(len(setups)))%len(setups)]
+		v := fmt.Sprintf("L/sigs/%d.u%02x", len(c01NameShapes), b)
+		if r.Intn(2) == 0 {
+			v += "p"
+		}
+		emit(c01Case{line: c01Line(head, su.steps, su.hist, []string{v}, tail), honest: true, remote: true,
+			tag: "honest/cosigned-" + su.name + "/name-nonascii", pre: len(su.hist)})
+	}
+}
+
+// c01EnumerateShortFull: SHORT COMPLETE TILE where a partial one is wanted — and the client instance goes on.
+//
+// Class: the client's tree (N records) is older than the completion of a tile, so it asks for the PARTIAL tile …p/W; that
+// file is nowhere (the server has dropped its partial tiles / the cache was filled by a run on a later tree), only the
+// COMPLETE tile is there, and what comes back under its name is shorter than a complete tile: cut to k bytes, k swept
+// below, at and above the W*HashSize bytes the client is going to use.  Three ways to get there:
+//
+//	synth  the server serves the tree of N records, partial-tile requests fail, the complete-tile request is answered with
+//	       the true prefix and a made-up tail (pdrop), cut to k bytes
+//	grown  the log has grown to M records (the tile is complete), lookups are still answered with the head of N records
+//	       (a lagging front end), partial-tile requests fail, the true complete tile is cut to k bytes
+//	cache  the cache was filled by an honest run on the tree of M records (complete tile on disk, no partial one), the
+//	       configuration is empty, the server serves the tree of N records; the cached complete tile is cut to k bytes
+//
+// The client is created over an EMPTY configuration (nothing is read from tiles while it initialises, so the failure is a
+// failure of a lookup, not a sticky initialisation error) and, after the lookup that runs into the short tile (and its
+// /go.mod repeat), the SAME instance with the faults still on is asked for two OTHER records, whose proofs need the same
+// right-edge tile; then (network variants) the restart against the honest server.
+//
+// Why it was missing: every fault of c01Enumerate was followed only by the repeat of the SAME lookup (answered from the
+// client's per-record result cache without touching a tile) and then by a fresh instance; nothing ever asked a client
+// instance for a second, different record after a lookup on it had failed inside the tile layer.  And a complete tile of
+// the wrong length reached the "cut the prefix out of the complete tile" branches of readTile only in the thorough tier's
+// random double faults (pdrop and trunc on the same tile).  The clauses concerned: whatever the network and the cache
+// hand back, every lookup fails or returns authentic lines — it does not hang or crash — and histories continue.
+func c01EnumerateShortFull(r *Rand, wseed uint64, N, h int, emit func(c01Case)) {
+	if N < 3 {
+		return
+	}
+	fullW := 1 << uint(h)
+	ids := c01UniqNat([]int{r.Intn(N), 0, N - 1, r.Intn(N)})
+	if len(ids) < 3 {
+		return
+	}
+	i, j, j2 := ids[0], ids[1], ids[2]
+	wN := clGetWorld(wseed, N, 0, 0)
+	for _, x := range []int{i, j, j2} {
+		if _, ok := clLookupFile(wN.A.recs[x].path, wN.A.recs[x].vers); !ok {
+			return
+		}
+	}
+	tail := fmt.Sprintf("new=0 look=0:A%d look=0:A%dm look=0:A%d look=0:A%d f-= new=0 look=0:A%d", i, i, j, j2, i)
+	for L := 0; L < 8; L++ {
+		n := N >> (uint(h) * uint(L))
+		if n == 0 {
+			break
+		}
+		W := n % fullW
+		if W == 0 {
+			continue // the right-edge tile of this level is complete
+		}
+		tn := n >> uint(h)
+		want := W * tlog.HashSize
+		ks := c01UniqNat([]int{0, want - 1, want - tlog.HashSize + r.Intn(tlog.HashSize), r.Intn(want), // below what is wanted
+			want, want + 1 + r.Intn(tlog.HashSize), fullW*tlog.HashSize - 1}) // enough for the wanted prefix, still not a complete tile
+		if !thorough {
+			// quick tier: the boundary, one value below, one value at/above
+			ks = c01UniqNat([]int{want - 1, r.Intn(want), []int{want, fullW*tlog.HashSize - 1}[r.Intn(2)]})
+		}
+		T := fmt.Sprintf("T%d.%d", L, tn)
+		M := (tn + 1) << (uint(h) * uint(L+1)) // first tree size at which the tile is complete
+		// cache variant: the cache warmed by the lookup of the last record of the tree of M records, whose proof reads
+		// the complete tile; cacheIdx = position of that tile among the sorted cache files (-1: not available)
+		cacheIdx := -1
+		okM := M <= 70 || thorough && M <= 600
+		if okM {
+			wM := clGetWorld(wseed, M, 0, 0)
+			if _, ok := clLookupFile(wM.A.recs[M-1].path, wM.A.recs[M-1].vers); ok {
+				env := clNewEnv(wM)
+				if clWarm(env, 0, wM.A.snap(M), itoa(M-1), h) {
+					name := clName + "/" + tlog.Tile{H: h, L: L, N: int64(tn), W: fullW}.Path()
+					for idx, f := range clSortedFiles(env.caches[0]) {
+						if f == name {
+							cacheIdx = idx
+						}
+					}
+				}
+			}
+		}
+		for _, k := range ks {
+			cls := "short"
+			if k >= want {
+				cls = "long-enough"
+			}
+			emit(c01Case{line: fmt.Sprintf("client.run w=%d:%d:0:0 h=%d f+=%s/pdrop/%s f+=%s/trunc/%d %s", wseed, N, h, T, clPdropVariants[r.Intn(3)], T, k, tail),
+				remote: true, cont: 2, tag: "fault/shortfull-synth-" + cls + "/tile-shortfull"})
+			if !okM {
+				continue
+			}
+			emit(c01Case{line: fmt.Sprintf("client.run w=%d:%d:0:0 h=%d srv=A@%d,A@%d f+=%s/pdrop/honest f+=%s/trunc/%d %s", wseed, M, h, N, M, T, T, k, tail),
+				remote: true, cont: 2, tag: "fault/shortfull-grown-" + cls + "/tile-shortfull"})
+			if cacheIdx >= 0 {
+				emit(c01Case{line: fmt.Sprintf("client.run w=%d:%d:0:0 h=%d warm=0:A@%d:%d cfg=empty cc=0:%d:trunc/%d srv=A@%d %s", wseed, M, h, M, M-1, cacheIdx, k, N, tail),
+					cont: 2, tag: "cache/shortfull-" + cls})
+			}
+		}
+	}
+}
+
 func c01UniqNat(l []int) []int {
 	seen := map[int]bool{}
 	var out []int
@@ -911,7 +1064,13 @@ func c01Judge(g *Gen, c c01Case) {
 		return
 	}
 	if out.hang {
-		g.Fail("C01 lookup hangs", "", c.line)
+		c01Hangs++
+		g.st.OracleTags["finding/C01 lookup hangs"]++
+		info := ""
+		if n := len(out.looks); n > 0 {
+			info = fmt.Sprintf("lookup %d of the scenario (%s) does not return", n, out.looks[n-1].key)
+		}
+		g.Fail("C01 lookup hangs", info, c.line)
 		return
 	}
 	for _, lk := range out.looks {
@@ -935,10 +1094,10 @@ func c01Judge(g *Gen, c c01Case) {
 			g.Fail("C01 lookup failed although server and cache are honest", fmt.Sprintf("history lookup %s -> %s %q", lk.key, lk.kind, lk.lines), c.line)
 		}
 	}
-	if c.remote && len(out.looks) == c.pre+3 {
+	if c.remote && len(out.looks) == c.pre+3+c.cont {
 		// after any sequence of network faults, what the client persisted is authentic: a restart against the honest
 		// server with that cache and configuration cannot fail
-		lk := out.looks[c.pre+2]
+		lk := out.looks[c.pre+2+c.cont]
 		want, _ := out.w.honestLines(out.w.A, lk.path, lk.vers)
 		switch {
 		case lk.kind != "ok":
@@ -956,6 +1115,10 @@ func c01Judge(g *Gen, c c01Case) {
 		g.Fail("C01 second lookup of the same record on the same client disagrees with the first", out.looks[c.pre].kind+" vs "+out.looks[c.pre+1].kind, c.line)
 	}
 }
+
+// c01Hangs counts the scenarios of this run in which a lookup did not return (each costs the full timeout: classes that
+// have shown the hang a few times stop early).
+var c01Hangs int
 
 func c01Oracle(g *Gen, n int) {
 	if n <= 0 {
@@ -1065,6 +1228,39 @@ func c01Oracle(g *Gen, n int) {
 			}
 		}
 		g.st.OracleTags["enumerated-cosigned"] = total
+	}
+	// co-signing witnesses and servers with legal non-ASCII key names (util_c01names.go): every UTF-8 continuation byte
+	{
+		k := 2
+		if thorough {
+			k = 8
+		}
+		total := 0
+		for ; k > 0; k-- {
+			N := 1 + g.Intn(maxN)
+			c01EnumerateCosignedNames(g.Rand, wseed, N, heights[g.Intn(len(heights))], g.Intn(N), func(c c01Case) { total++; c01Judge(g, c) })
+		}
+		g.st.OracleTags["enumerated-cosigned-names"] = total
+		c01NamesOracle(g, wseed)
+	}
+	// short complete tile where a partial one is wanted, the same client instance continuing with other records
+	{
+		var cases []c01Case
+		for N := 3; N <= min(maxN, 40); N++ {
+			for _, h := range heights {
+				c01EnumerateShortFull(g.Rand, wseed, N, h, func(c c01Case) { cases = append(cases, c) })
+			}
+		}
+		budget := n/16 + 1
+		for _, c := range cases {
+			if c01Hangs >= 3 {
+				break // (every hanging scenario costs the full lookup timeout)
+			}
+			if g.Intn(len(cases)) < budget {
+				c01Judge(g, c)
+			}
+		}
+		g.st.OracleTags["enumerated-shortfull"] = len(cases)
 	}
 	// fixed regressions: the F6 scenario (forged record + forged leaf tile, honest head) and O3
 	for _, l := range []string{
